@@ -80,10 +80,13 @@ Supers(c, e) ==
     [] c.inh = "chain"   -> IF e = "e2" THEN <<"e1">> ELSE IF e = "e3" THEN <<"e2">> ELSE <<>>
     [] c.inh = "multi"   -> IF e = "e2" THEN <<"e1">> ELSE IF e = "e3" THEN <<"e1">> ELSE IF e = "e4" THEN <<"e2", "e3">> ELSE <<>>
     [] c.inh = "fan"     -> IF e \in {"e2", "e3"} THEN <<"e1">> ELSE <<>>
+    \* two separate trees joined at the bottom: e2 below e1, e3 below r2, e4 below both; h refers to both roots
+    [] c.inh = "tworoots" -> IF e = "e2" THEN <<"e1">> ELSE IF e = "e3" THEN <<"r2">> ELSE IF e = "e4" THEN <<"e2", "e3">> ELSE <<>>
 RootExpr(c) ==
-  IF c.sx = "none" \/ c.inh \in {"none", "chain"} THEN NoTree
+  IF c.sx = "none" \/ c.inh \in {"none", "chain", "tworoots"} THEN NoTree
   ELSE Op(c.sx, <<Leaf("e2"), Leaf("e3")>>)
-Names(c) == IF c.inh = "multi" THEN <<"e1", "e2", "e3", "e4">> ELSE <<"e1", "e2", "e3">>
+Names(c) == IF c.inh = "multi" THEN <<"e1", "e2", "e3", "e4">>
+            ELSE IF c.inh = "tworoots" THEN <<"e1", "e2", "r2", "e3", "e4", "h">> ELSE <<"e1", "e2", "e3">>
 WithRules(c, e) ==
   IF ~c.rules THEN e
   ELSE IF e.name = "e1" THEN [e EXCEPT !.derive = <<[name |-> "d1", ty |-> T("INTEGER"), expr |-> "a1 + f1(a1)"]>>,
@@ -100,6 +103,9 @@ Valid(c) ==
                    IF n = "e1" THEN RootAttrs(c.ak)
                    ELSE IF n = "e2" THEN <<A("b1", T("e1"), FALSE), A("b2", T("STRING"), TRUE)>>
                    ELSE IF n = "e3" THEN <<A("c1", T("BOOLEAN"), FALSE)>> \o ExtraAttrs(c.ts)
+                   ELSE IF n = "r2" THEN <<A("q1", T("INTEGER"), FALSE)>>
+                   ELSE IF n = "h" THEN <<A("h1", T("e1"), FALSE), A("h2", T("r2"), FALSE), A("h3", Agg("LIST", 0, -1, "e1"), FALSE),
+                                          A("h4", Agg("LIST", 0, -1, "r2"), TRUE)>>
                    ELSE <<A("g1", T("REAL"), TRUE)>>))],
    funcs |-> IF c.rules THEN <<[name |-> "f1", nparams |-> 1]>> ELSE <<>>,
    aux |-> c.aux]
@@ -107,7 +113,7 @@ TypeShapes(deep) == {[k |-> "aggs"]} \cup {[k |-> "chain", of |-> o, names |-> p
                                                    p \in (IF deep THEN Perm3 ELSE {<<"m1", "m2", "m3">>, <<"m3", "m1", "m2">>, <<"m2", "m3", "m1">>})}
 Choices(deep) ==
   {[inh |-> i, sx |-> s, abs |-> a, ak |-> k, rules |-> r, aux |-> x, ts |-> [k |-> "base"]] :
-     i \in (IF deep THEN {"none", "chain", "multi", "fan"} ELSE {"chain", "multi"}),
+     i \in (IF deep THEN {"none", "chain", "multi", "fan", "tworoots"} ELSE {"chain", "multi", "tworoots"}),
      s \in (IF deep THEN {"none", "oneof", "andor"} ELSE {"none", "oneof"}),
      a \in (IF deep THEN BOOLEAN ELSE {FALSE}), k \in (IF deep THEN 1..3 ELSE {2, 3}), r \in BOOLEAN,
      x \in BOOLEAN}
@@ -137,6 +143,9 @@ Mutants(c) ==
   \cup {M("dup_attr", 1, "a1", "DUPLICATE_DECL"), M("dup_type_entity", 1, "e1", "DUPLICATE_DECL")}
   \cup (IF c.inh # "none" THEN {M("subtype_cycle", 1, "", "SUBSUPER_LOOP"), M("inherited_redeclared", 2, "a1", "OVERLOADED_ATTR")} ELSE {})
   \cup {M("select_cycle", 0, "", "SELECT_LOOP")}
+  \* the same cycle with entity members, and an expression that has to look through the cyclic select (attribute  \*
+  \* access and group qualification on a value of that type), entity member before or after the select member
+  \cup {[M("select_cycle", 0, "", "SELECT_LOOP") EXCEPT !.pos = p] : p \in {"entity_first_dot", "select_first_dot", "entity_first_group", "three_dot"}}
   \cup {[M("undef_ref", 1, "nosuch_a", "UNDEFINED") EXCEPT !.pos = p] : p \in UndefRefPos}
 
 (* lexical mutants (C20): the offending character / identifier / count must be the one quoted *)
